@@ -37,6 +37,35 @@ func main() {
 			e.seed, _ = strconv.Atoi(s)
 		}
 		res := e.check(*prop)
+		// the properties this one rests on: their obligations are discharged in the same run and count as its own
+		for _, inc := range e.w.db.Includes[*prop] {
+			r2 := e.check(inc)
+			have := map[string]bool{}
+			for _, o := range res.obls {
+				have[o.Func+"/"+o.Name] = true
+			}
+			for _, o := range r2.obls {
+				if have[o.Func+"/"+o.Name] {
+					continue
+				}
+				o.Props = []string{*prop}
+				o.Via = inc
+				res.obls = append(res.obls, o)
+			}
+			res.funcs = mergeStrings(res.funcs, r2.funcs)
+			res.support = mergeStrings(res.support, r2.support)
+			res.errors = append(res.errors, r2.errors...)
+			res.unsupported = append(res.unsupported, r2.unsupported...)
+			for k := range r2.assumptions {
+				res.assumptions[k] = true
+			}
+			for k := range r2.notes {
+				res.notes[k] = true
+			}
+			res.assumptions["the obligations of property "+inc+" (on which "+*prop+" rests) are discharged in this run as well"] = true
+			res.lemmas += r2.lemmas
+			res.wall += r2.wall
+		}
 		os.Exit(e.report(res))
 	case "modset":
 		e, err := newEngine("/repo", "/verif", "quick", patternsFor(""))
@@ -88,4 +117,18 @@ func patternsFor(prop string) []string {
 		return []string{"./..."}
 	}
 	return []string{"./types", "./process", "./parser", "./position"}
+}
+
+func mergeStrings(a, b []string) []string {
+	seen := map[string]bool{}
+	for _, x := range a {
+		seen[x] = true
+	}
+	for _, x := range b {
+		if !seen[x] {
+			seen[x] = true
+			a = append(a, x)
+		}
+	}
+	return a
 }
